@@ -95,6 +95,8 @@ FUEL = {
 TABLE_MODS = {'gamma_tables': 'Gamma', 'delta_tables': 'Delta', 'zeta_tables': 'Zeta'}
 INT_TYPES = ('u64', 'usize')
 CAST_OK = ('u64', 'usize', '_')
+# narrowing casts (len_* functions only): the value is reduced modulo 2^width
+NARROW = {'u32': 32, 'u16': 16, 'u8': 8}
 LEAN_RESERVED = {'λ', 'fun', 'at', 'from', 'have', 'show', 'then', 'else', 'do', 'if', 'let', 'in', 'end', 'by',
                  'match', 'with', 'where', 'open', 'def', 'theorem', 'instance', 'structure', 'class', 'namespace',
                  'section', 'variable', 'universe', 'import', 'Type', 'Prop', 'Sort', 'forall', 'exists', 'this',
@@ -187,7 +189,7 @@ class Parser:
         while self.at('as'):
             self.i += 1
             ty = self.ident()
-            if ty not in CAST_OK:
+            if ty not in CAST_OK and not (ty in NARROW and not self.prog):
                 self.fail('cast to `%s` is not in the translated language' % ty)
             e = ('cast', e, ty)
         return e
@@ -540,6 +542,9 @@ class Emitter:
                 self.fail('`*` on something that is not a table entry')
             return (lean_id(e[1][1]), P_ATOM)
         if k == 'cast':
+            if e[2] in NARROW:
+                # `as u32` / `as u16` / `as u8` of an unsigned value: truncation
+                return ('%s %% 2 ^ %d' % (par(self.expr(e[1], sc), P_MUL + 1), NARROW[e[2]]), P_MUL)
             return self.expr(e[1], sc)
         if k == 'path':
             if len(e[1]) == 2 and e[1][0] in TABLE_MODS and e[1][1] == 'K' and e[1][0] == 'zeta_tables':
@@ -567,6 +572,20 @@ class Emitter:
             if name == 'wrapping_sub' and len(args) == 1:
                 return ('(%s + 2 ^ 64 - %s) %% 2 ^ 64' % (par(self.expr(recv, sc), P_ADD),
                                                          par(self.expr(args[0], sc), P_ADD + 1)), P_MUL)
+            if name in ('wrapping_shl', 'wrapping_shr') and len(args) == 1:
+                # `wrapping_shl(k)` / `wrapping_shr(k)`: the shift amount is reduced modulo the width of the
+                # receiver, which must be evident from the text (a suffixed literal or a cast)
+                w = None
+                if recv[0] == 'num' and recv[2] in ('u64', 'usize'):
+                    w = 64
+                elif recv[0] == 'cast' and recv[2] in ('u64', 'usize'):
+                    w = 64
+                if w is None:
+                    self.fail('`.%s()` on a receiver whose width is not evident' % name)
+                amt = '%s %% %d' % (par(self.expr(args[0], sc), P_MUL + 1), w)
+                if name == 'wrapping_shl':
+                    return ('(%s <<< (%s)) %% 2 ^ %d' % (par(self.expr(recv, sc), P_SHIFT), amt, w), P_MUL)
+                return ('%s >>> (%s)' % (par(self.expr(recv, sc), P_SHIFT), amt), P_CMP + 1)
             self.fail('method `.%s()`' % name)
         if k == 'call':
             name, flags, args = e[1], e[2], e[3]
